@@ -82,7 +82,7 @@ func (c *Ctx) findWriters(tb *ir.TB) []*writerInfo {
 }
 
 func c05(c *Ctx) {
-	c.R.Explanation = "C05: three structural conditions decided on the SSA of /repo. R-manual = interprocedural typestate over every FanController.UpdateFanSpeed implementation: every return that may carry a nil error is in state 'manual mode asserted', reached by an invoke Fan.SetPwmEnabled(ControlModePWM) or by crossing the edge Supports(FeatureControlMode) == false (the only admissible guard). R-skip = in the write routine (the function in UpdateFanSpeed's call tree that invokes Fan.SetPwm(e)) every path that returns without that invoke crossed both an edge establishing e == cur, cur = result #0 of a call that reads the fan's PWM on that path, and the err == nil edge of that read. R-count = every store to the third-party counter is control-dependent on cur != e' with cur a fresh successful Fan.GetPwm, on 'a request was made' (last-request field != nil) and e' the same normalised term as the writer's e with the request parameter replaced by the last-request field; the writer records exactly its request parameter in that field (writer and checker agree on map∘closest∘last-request). Not decided: that the fan reads back what was written (assumed by the quantifier); 'within one cycle' beyond 'every cycle re-asserts and re-compares'."
+	c.R.Explanation = "C05: three structural conditions decided on the SSA of /repo. R-manual = interprocedural typestate over every FanController.UpdateFanSpeed implementation: every return that may carry a nil error is in state 'manual mode asserted', reached by an invoke Fan.SetPwmEnabled(ControlModePWM) or by crossing the edge Supports(FeatureControlMode) == false (the only admissible guard). R-skip = in the write routine (the function in UpdateFanSpeed's call tree that invokes Fan.SetPwm(e)) every path that returns without that invoke crossed both an edge establishing e == cur, cur = result #0 of a call that reads the fan's PWM on that path, and the err == nil edge of that read. R-count = every store to the third-party counter is control-dependent on cur != e' with cur a fresh successful Fan.GetPwm, on 'a request was made' (last-request field != nil) and e' the same normalised term as the writer's e with the request parameter replaced by the last-request field; the writer records exactly its request parameter in that field (writer and checker agree on map∘closest∘last-request). R-write = (shared with C03) every Fan.SetPwm implementation writes to the device on every path that reports success. Not decided: that the fan reads back what was written (assumed by the quantifier); 'within one cycle' beyond 'every cycle re-asserts and re-compares'."
 	tb := ir.NewTB(c.P.IsRepoFunc, c.P.FuncKey)
 	tb.NoInline = func(f *ssa.Function) bool { return load_FuncPkgPath(f) != PkgCtrl }
 
